@@ -105,6 +105,37 @@ def formTuple (cols : List Col) (r : RowV) : Tuple :=
     mid := bm ++ zeros (hoff - 23 - bm.length),
     data := form (cols.take r.natts) stored 0 }
 
+/-- the fields of a stored tuple header that play no part in decoding the row: inserting / deleting transaction,
+command id, t_ctid (self pointer, or the successor version after an UPDATE) and the five high bits of t_infomask2
+(0x0800, 0x1000 unused, HEAP_KEYS_UPDATED 0x2000, HEAP_HOT_UPDATED 0x4000, HEAP_ONLY_TUPLE 0x8000) as a number
+below 32.  The defaults are the values `formTuple` fixes. -/
+structure HdrFields where
+  xmin : Nat := 2
+  xmax : Nat := 0
+  cid : Nat := 0
+  ctid : Bytes := zeros 6
+  flags2 : Nat := 0
+deriving Repr, DecidableEq, Inhabited
+
+def HdrFields.WF (h : HdrFields) : Prop := h.ctid.length = 6 ∧ h.flags2 < 32
+
+instance (h : HdrFields) : Decidable h.WF := by unfold HdrFields.WF; infer_instance
+
+/-- heap_form_tuple with the header fields that do not matter as parameters: any xmin / xmax / cid / t_ctid and any
+flag bits of t_infomask2 beside the attribute count (a never-updated tuple, the dead version an UPDATE / ALTER
+leaves behind, its HOT successor …).  `formTuple cols r = formTupleH {} cols r` (`formTuple_eq_H`). -/
+def formTupleH (h : HdrFields) (cols : List Col) (r : RowV) : Tuple :=
+  let bm := if r.hasNull then encBitmap r.present else []
+  let hoff := (23 + bm.length + 7) / 8 * 8
+  let stored := r.vals.take r.natts
+  let flags := (if r.hasNull then 1 else 0) + (if stored.any isVarwidth then 2 else 0) + (if stored.any isExternal then 4 else 0)
+  { xmin := h.xmin, xmax := h.xmax, cid := h.cid, ctid := h.ctid, infomask2 := r.natts + 2048 * h.flags2,
+    infomask := r.infomask / 8 * 8 + flags,
+    mid := bm ++ zeros (hoff - 23 - bm.length),
+    data := form (cols.take r.natts) stored 0 }
+
+theorem formTuple_eq_H (cols : List Col) (r : RowV) : formTuple cols r = formTupleH {} cols r := rfl
+
 /-- what the reader must report for a stored datum, given the rendering `val` of (payload, type oid):
 the payload of a fixed / short / long value, the raw stored bytes of an inline-compressed one (content is
 C08's business), the C string itself; an external value cannot be resolved from the tuple alone and is
@@ -131,6 +162,20 @@ def expectedCols (val : Bytes → Int → M GoVal) : List Col → List (Option D
 def rowView (val : Bytes → Int → M GoVal) (cols : List Col) (r : RowV) : M (List (Bytes × GoVal)) :=
   expectedCols val cols r.vals r.natts
 
+/-! ### row versions of a heap file (C09) -/
+
+/-- a stored row version: the free header fields (who inserted / deleted it, where its successor is, the
+t_infomask2 flag bits) and the row (attribute values, stored attribute count, t_infomask) -/
+abbrev RowVer := HdrFields × RowV
+
+def formVer (cols : List Col) (v : RowVer) : Tuple := formTupleH v.1 cols v.2
+
+/-- length of the data area of the stored row (what `raw_size` of a recovered row must be) -/
+def RowV.dataLen (cols : List Col) (r : RowV) : Nat := (form (cols.take r.natts) (r.vals.take r.natts) 0).length
+
+/-- the same row under another t_infomask (the hint bits a later DELETE / UPDATE / VACUUM sets) -/
+def RowV.withMask (r : RowV) (m : Nat) : RowV := { r with infomask := m }
+
 /-- typalign in bytes (c 1, s 2, i 4, d 8) of PostgreSQL's built-in types (pg_type.dat, PostgreSQL 12–16) for the
 type oids a reader may have to align without catalog help.  An array type is 'd' aligned iff its element type
 is; a range type iff its subtype is; path and polygon hold float8 points and are 'd' aligned. -/
@@ -140,14 +185,39 @@ def pgTypAlign : List (Nat × Nat) :=
    (718, 8), (774, 4), (790, 8), (829, 4), (869, 4), (1042, 4), (1043, 4), (1082, 4), (1083, 8), (1114, 8),
    (1184, 8), (1186, 8), (1266, 8), (1560, 4), (1562, 4), (1700, 4), (2950, 1), (3220, 8), (3614, 4), (3615, 4),
    (3802, 4), (3904, 4), (3906, 4), (3908, 8), (3910, 8), (3912, 4), (3926, 8), (4072, 4),
+   -- txid_snapshot, pg_snapshot, xid8; ts / tstz / int8 multiranges (PostgreSQL 14+)
+   (2970, 8), (5038, 8), (5069, 8), (4533, 8), (4534, 8), (4536, 8),
    -- arrays of 'd' aligned element types
    (629, 8), (719, 8), (791, 8), (1016, 8), (1017, 8), (1018, 8), (1019, 8), (1020, 8), (1022, 8), (1027, 8),
    (1115, 8), (1183, 8), (1185, 8), (1187, 8), (1270, 8), (3221, 8), (3909, 8), (3911, 8), (3927, 8),
+   (2949, 8), (5039, 8), (271, 8), (6152, 8), (6153, 8), (6157, 8),
    -- arrays of other element types
    (1000, 4), (1001, 4), (1002, 4), (1003, 4), (1005, 4), (1006, 4), (1007, 4), (1008, 4), (1009, 4), (1010, 4),
    (1011, 4), (1012, 4), (1014, 4), (1015, 4), (1021, 4), (1028, 4), (1040, 4), (1041, 4), (1182, 4), (1231, 4),
    (1561, 4), (1563, 4), (2951, 4), (3643, 4), (3645, 4), (3807, 4), (4073, 4), (651, 4), (775, 4), (3905, 4),
    (3907, 4), (3913, 4)]
+
+/-- typlen of the fixed-length types of `pgTypAlign` (pg_type.dat); every other type of that table is a varlena (−1) -/
+def pgTypLen : List (Nat × Int) :=
+  [(16, 1), (18, 1), (19, 64), (20, 8), (21, 2), (23, 4), (26, 4), (27, 6), (28, 4), (29, 4), (600, 16), (601, 32), (603, 32),
+   (628, 24), (700, 4), (701, 8), (718, 24), (774, 8), (790, 8), (829, 6), (1082, 4), (1083, 8), (1114, 8), (1184, 8),
+   (1186, 16), (1266, 12), (2950, 16), (3220, 8), (5069, 8)]
+
+def pgTypLenOf (oid : Nat) : Int := (pgTypLen.lookup oid).getD (-1)
+
+/-- (oid, typlen, typalign in bytes) of the other built-in types of PostgreSQL 12–16 that can be the type of a stored
+column and whose length and alignment are the same in every one of these versions (pg_type.dat): int2vector, regproc,
+oidvector, pg_node_tree, refcursor, the reg* types, gtsvector, the statistics and BRIN summary types, the 'i' aligned
+multiranges, and the array types of 'i' aligned elements that `pgTypAlign` does not list.  A reader that gets no
+alignment from the catalog must still align them as PostgreSQL does.  (aclitem is not listed: 12 bytes 'i' up to
+PostgreSQL 15, 16 bytes 'd' in 16.) -/
+def pgTypOther : List (Nat × Int × Nat) :=
+  [(22, -1, 4), (24, 4, 4), (30, -1, 4), (194, -1, 4), (1790, -1, 4), (2202, 4, 4), (2203, 4, 4), (2204, 4, 4), (2205, 4, 4),
+   (2206, 4, 4), (4096, 4, 4), (4089, 4, 4), (3734, 4, 4), (3769, 4, 4), (4191, 4, 4), (3642, -1, 4), (3361, -1, 4),
+   (3402, -1, 4), (5017, -1, 4), (4600, -1, 4), (4601, -1, 4), (4451, -1, 4), (4532, -1, 4), (4535, -1, 4),
+   (1013, -1, 4), (2201, -1, 4), (2207, -1, 4), (2208, -1, 4), (2209, -1, 4), (2210, -1, 4),
+   (2211, -1, 4), (3735, -1, 4), (3770, -1, 4), (6150, -1, 4), (6151, -1, 4), (6155, -1, 4), (199, -1, 4), (143, -1, 4),
+   (3644, -1, 4), (4090, -1, 4), (4097, -1, 4), (4192, -1, 4)]
 
 /-! ### pg_authid (PostgreSQL 12+: oid is an ordinary first column) -/
 
@@ -195,6 +265,12 @@ def roleVals (r : Role) : List (Option Datum) :=
 /-- a stored version of a role: the row and its header bits (live, or dead after ALTER/DROP ROLE) -/
 def encRole (r : Role) (infomask : Nat) : Tuple :=
   formTuple authidCols { vals := roleVals r, natts := 12, infomask }
+
+/-- the same with arbitrary header fields (xmin / xmax / cid / t_ctid / t_infomask2 flag bits): what a real
+pg_authid holds — bootstrap roles with xmin 1, the dead version ALTER ROLE leaves behind (xmax, t_ctid → successor,
+HOT_UPDATED | KEYS_UPDATED) and its successor (ONLY_TUPLE) -/
+def encRoleH (h : HdrFields) (r : Role) (infomask : Nat) : Tuple :=
+  formTupleH h authidCols { vals := roleVals r, natts := 12, infomask }
 
 /-- what credential extraction must report for a role version -/
 structure RoleView where
